@@ -193,7 +193,9 @@ class Rotation(BaseOperation):
         atoms = context.atoms
 
         molecule = cast("Atoms", atoms[context._moving_indices])
-        phi, theta, psi = context.rng.uniform(0, 2 * np.pi, 3)
+        # `Atoms.euler_rotate` takes degrees; a uniformly random orientation needs cos(theta) uniform
+        phi, psi = context.rng.uniform(0.0, 360.0, 2)
+        theta = np.degrees(np.arccos(context.rng.uniform(-1.0, 1.0)))
         molecule.euler_rotate(phi, theta, psi, center="COM")  # type: ignore
 
         return molecule.positions - context.atoms.positions[context._moving_indices]
